@@ -3,6 +3,14 @@
 COMMON_MODEL = "Go runtime, reflect, sync and the standard library are not modelled"
 
 PROPS = {
+    "C01": dict(
+        level_text="Coq theorems for every history over the property's alphabet (any number of readers, any order): the serials of the responses emitted so far followed by the serials of the writes still pending are exactly 0..accepted-1 - each accepted write is answered at most once, in write order, none lost; a write that reports zero accepting readers gets no response; responses are joins (errors dominate, empty answers vanish, payloads in link order); positional lookups stay in range. Tied to pkg/packet by driving one real Writer and real Readers through generated histories (the goroutines Reader.Close spawns are parked in a build-tagged gate and delivered as explicit steps) and comparing every return value, the response stream and the requests seen by each reader with the model, plus an identity-based request/response ledger in Go as failing-input oracle for attribution.",
+        level_note="Trusted: Coq kernel + vm_compute; hand transcription of writer.go/reader.go/packet.go; steps are the code's critical sections (their atomicity is C20). Attribution of answers to writes (positional matching) is checked against the ledger on generated histories, not proved in Coq; known finding F-C01-d (stale re-link).",
+        technique="Coq invariant proof over histories (ledger of serials) + vm_compute correspondence + identity-based ledger oracle in Go",
+        quick_n=400, thorough_n=12000, shard=40, mismatch_is_failure=True,
+        assumptions=["one writer; operations of the alphabet are atomic (each is a critical section of the code)"],
+        trusted_base=["pkg/packet writer.go/reader.go/packet.go transcribed by hand into theories/Packet/Writer.v", COMMON_MODEL, "verif hook at the top of Writer.receive (gate for deferred drop notices)"],
+    ),
     "C10": dict(
         level_text="Coq theorems on the store model: a map filter is the conjunction of its entries (per-operator meaning m_entry), a find returns in id order exactly the stored documents the reference evaluation accepts whatever indexes exist (via C11), find(nil) lists everything, stored documents are read back as written, $set/$unset act as Map.Set/Delete (dictionary semantics = C15). Tied to pkg/store by replaying generated histories (inserts, updates incl. upsert and malformed updates, deletes, finds with sort/skip/limit, malformed filters) on the real store and comparing every returned document list, count and error class with the model evaluated in Coq, plus a Go reference evaluator over the documents stored before each step as failing-input oracle.",
         level_note="Trusted: Coq kernel + vm_compute; hand transcription of pkg/store into theories/Store (B-trees abstracted to sorted lists / tuple sets); theorems cover filters whose evaluation raises no error on the stored documents, ill-formed filters only by the differential run; sort is modelled as a stable insertion sort (Go's slices.SortFunc for at most 12 elements).",
